@@ -182,6 +182,52 @@ PCFd(t, ens, D) ==
 
 PCF(t) == PCFd(t, NoNs, {})
 
+
+(***************************************************************************)
+(* [WHITESPACE] / [STRINGS] / [INTEGERS]: the canonical TEXT of a          *)
+(* canonical tree, as UTF-8 bytes -- no whitespace, keys and strings in    *)
+(* quotes without escapes (names and symbols need none; CanonTextOk says   *)
+(* so), integers in decimal without sign padding or leading zeros.         *)
+(***************************************************************************)
+KeyU(k) == CASE k = "name" -> <<110, 97, 109, 101>>
+             [] k = "type" -> <<116, 121, 112, 101>>
+             [] k = "fields" -> <<102, 105, 101, 108, 100, 115>>
+             [] k = "symbols" -> <<115, 121, 109, 98, 111, 108, 115>>
+             [] k = "items" -> <<105, 116, 101, 109, 115>>
+             [] k = "values" -> <<118, 97, 108, 117, 101, 115>>
+             [] k = "size" -> <<115, 105, 122, 101>>
+             [] k = "order" -> <<111, 114, 100, 101, 114>>
+             [] k = "precision" -> <<112, 114, 101, 99, 105, 115, 105, 111, 110>>
+             [] k = "scale" -> <<115, 99, 97, 108, 101>>
+
+RECURSIVE DigitsOf(_)
+DigitsOf(n) == IF n < 10 THEN <<48 + n>> ELSE DigitsOf(n \div 10) \o <<48 + (n % 10)>>
+IntText(n) == IF n < 0 THEN <<45>> \o DigitsOf(0 - n) ELSE DigitsOf(n)
+
+Quoted(u) == <<34>> \o u \o <<34>>
+NeedsNoEscape(u) == \A i \in 1..Len(u) : u[i] >= 32 /\ u[i] # 34 /\ u[i] # 92 /\ u[i] # 127
+
+RECURSIVE JoinWithCommas(_)
+JoinWithCommas(parts) ==
+  IF Len(parts) = 0 THEN <<>>
+  ELSE IF Len(parts) = 1 THEN parts[1]
+  ELSE parts[1] \o <<44>> \o JoinWithCommas(Tail(parts))
+
+RECURSIVE TextBytes(_), CanonTextOk(_)
+TextBytes(c) ==
+  CASE c.j = "str" -> Quoted(c.u)
+    [] c.j = "int" -> IntText(c.n)
+    [] c.j = "arr" -> <<91>> \o JoinWithCommas([i \in 1..Len(c.items) |-> TextBytes(c.items[i])]) \o <<93>>
+    [] c.j = "obj" -> <<123>> \o JoinWithCommas([i \in 1..Len(c.kv) |-> Quoted(KeyU(c.kv[i][1])) \o <<58>> \o TextBytes(c.kv[i][2])]) \o <<125>>
+
+(* TextBytes is defined on canonical trees whose strings need no JSON escape and whose numbers are small integers *)
+CanonTextOk(c) ==
+  CASE c.j = "str" -> NeedsNoEscape(c.u)
+    [] c.j = "int" -> TRUE
+    [] c.j = "arr" -> \A i \in 1..Len(c.items) : CanonTextOk(c.items[i])
+    [] c.j = "obj" -> \A i \in 1..Len(c.kv) : c.kv[i][1] \in {"name", "type", "fields", "symbols", "items", "values", "size"} /\ CanonTextOk(c.kv[i][2])
+    [] OTHER -> FALSE
+
 (* Under "C12-extra-keys-kept" a precision/scale value that is not an integer makes the
    implementation panic instead of producing text ("C12-precision-scale-attr-panic"). *)
 BadExtraHere(o) == \E k \in {"precision", "scale"} : HasKey(o, k) /\ Get(o, k).j # "int"
